@@ -2,7 +2,7 @@
 import copy
 import random
 
-from ..engines import delegation, envelope, rootchain
+from ..engines import delegation, envelope, hostile, rootchain
 from ..gen import caselang, jsonvals, keys as gkeys, metadata as gmd, mutate, palette
 from ..monitors import boundary, sysmon
 from ..refs import canonjson, ed25519, models, openpgp
@@ -222,20 +222,28 @@ def run_classes(spec, rec, lib):
     rng = random.Random(spec["seed"])
     for i in range(spec["count"]):
         r = i % 3
+        eng, fn = [(envelope, "verify_signable"), (rootchain, "verify_root"), (delegation, "verify_delegation")][r]
+        case = eng.gen_case(rng) if r != 1 else eng.gen_pair(rng)
+        if i % 4 == 2:
+            # fail-closed also when the diagnostics cannot be printed (standard output closed / full / broken pipe ...),
+            # here as the FIRST contact of the process with this document: only the direction "a rejection stays a
+            # rejection" is judged; the error is then the print's own
+            tw = dict(case, stdout=hostile.MODES[(i // 4) % len(hostile.MODES)])
+            res = eng.evaluate(tw, lib)
+            m3, o3 = res[0], (res[1] if r == 0 else res[2])
+            rec.count("failing_stdout_runs")
+            rec.count("failing_stdout_write_attempts", tw.get("_stdout_write_attempts", 0))
+            if o3.accepted and m3.v == models.REJECT:
+                rec.violation("fail-open/authentication.%s/stdout-fails/observed=return" % fn,
+                              "rejection (%s) turned into a normal return when standard output fails (%s)" % (m3.why, tw["stdout"]), tw)
         if r == 0:
-            case = envelope.gen_case(rng)
             model, out, _m, _s = envelope.evaluate(case, lib)
-            fn = "verify_signable"
             err = model.error if model.v == models.REJECT else None
         elif r == 1:
-            case = rootchain.gen_pair(rng)
             model, failed, out, _m = rootchain.evaluate(case, lib)
-            fn = "verify_root"
             err = model.error if model.v == models.REJECT else None
         else:
-            case = delegation.gen_case(rng)
             model, failed, out, _m = delegation.evaluate(case, lib)
-            fn = "verify_delegation"
             err = model.error if model.v == models.REJECT else None
             if err == "SignatureError" and failed != ["threshold"]:
                 err = None
